@@ -1,5 +1,7 @@
 import GramModel.Parser
+import GramModel.Generated.Grammar
 import GramModel.Lemmas.Parser
+import GramModel.Lemmas.ParserSound
 
 /-!
 # C07 — the parser accepts exactly `grammar.y` and builds the tree it specifies
@@ -245,3 +247,247 @@ private def atom (n : Int) (s e : Nat) : Src := .mk ⟨s, e⟩ false (.lit n) []
 example :
     reassociateSumsAndDifferences (rightNested ⟨0, 10⟩ (atom 10 0 2) [(.diff, atom 5 5 6), (.diff, atom 3 9 10)])
       = some (leftNested (atom 10 0 2) [(.diff, atom 5 5 6), (.diff, atom 3 9 10)]) := by rfl
+
+/-! ## Soundness w.r.t. the published grammar (T2)
+
+`Generated.grammarProductions` is regenerated from `/repo/grammar.y` on every run. -/
+
+/-- the grammar terminal a token kind stands for (`token.rs` ↔ `grammar.y`) -/
+def terminalOf : PKind → String
+  | .asterisk => "ASTERISK" | .boolean => "BOOLEAN" | .colon => "COLON" | .doubleEquals => "DOUBLE_EQUALS"
+  | .else_ => "ELSE" | .equals => "EQUALS" | .false_ => "FALSE" | .greaterThan => "GREATER_THAN"
+  | .greaterThanOrEqualTo => "GREATER_THAN_OR_EQUAL" | .identifier _ => "IDENTIFIER" | .if_ => "IF"
+  | .integer => "INTEGER" | .integerLiteral _ => "INTEGER_LITERAL" | .leftCurly => "LEFT_CURLY"
+  | .leftParen => "LEFT_PAREN" | .lessThan => "LESS_THAN" | .lessThanOrEqualTo => "LESS_THAN_OR_EQUAL"
+  | .minus => "MINUS" | .plus => "PLUS" | .rightCurly => "RIGHT_CURLY" | .rightParen => "RIGHT_PAREN"
+  | .slash => "SLASH" | .terminator _ => "TERMINATOR" | .then_ => "THEN" | .thickArrow => "THICK_ARROW"
+  | .thinArrow => "THIN_ARROW" | .true_ => "TRUE" | .type_ => "TYPE"
+
+/-- the grammar nonterminal a packrat function parses -/
+def nonterminalOf : NT → String
+  | .term => "term" | .type => "type" | .variable => "variable" | .lambda => "lambda"
+  | .lambdaImplicit => "lambda_implicit" | .annotatedLambda => "annotated_lambda"
+  | .annotatedLambdaImplicit => "annotated_lambda_implicit" | .pi => "pi" | .piImplicit => "pi_implicit"
+  | .nonDependentPi => "non_dependent_pi" | .application => "application" | .let_ => "let"
+  | .integer => "integer" | .integerLiteral => "integer_literal" | .negation => "negation" | .sum => "sum"
+  | .difference => "difference" | .product => "product" | .quotient => "quotient" | .lessThan => "less_than"
+  | .lessThanOrEqualTo => "less_than_or_equal_to" | .equalTo => "equal_to" | .greaterThan => "greater_than"
+  | .greaterThanOrEqualTo => "greater_than_or_equal_to" | .boolean => "boolean" | .true_ => "true"
+  | .false_ => "false" | .if_ => "if" | .group => "group" | .atom => "atom" | .smallTerm => "small_term"
+  | .mediumTerm => "medium_term" | .largeTerm => "large_term" | .hugeTerm => "huge_term"
+  | .giantTerm => "giant_term" | .jumboTerm => "jumbo_term"
+
+mutual
+/-- `Derives G A w`: the nonterminal `A` derives the terminal string `w` in the grammar `G` -/
+inductive Derives (G : List (String × List String)) : String → List String → Prop
+  | prod {A rhs w} : (A, rhs) ∈ G → DerivesSeq G rhs w → Derives G A w
+/-- a sequence of symbols derives the concatenation of what its members derive -/
+inductive DerivesSeq (G : List (String × List String)) : List String → List String → Prop
+  | nil : DerivesSeq G [] []
+  | term {a rest w} : a ∈ Generated.grammarTerminals → DerivesSeq G rest w → DerivesSeq G (a :: rest) (a :: w)
+  | nonterm {A rest w1 w2} : Derives G A w1 → DerivesSeq G rest w2 → DerivesSeq G (A :: rest) (w1 ++ w2)
+end
+
+/-- the terminal string of the tokens from `a` (inclusive) to `b` (exclusive) -/
+def terminalsBetween (toks : Array PTok) (a b : Nat) : List String :=
+  ((toks.toList.drop a).take (b - a)).map (fun t => terminalOf t.kind)
+
+/-! ### From parse-shaped derivations (`PModel.Seg`, `Lemmas/ParserSound.lean`) to `Derives` -/
+
+theorem terminalsBetween_append (toks : Array PTok) {a b c : Nat} (h1 : a ≤ b) (h2 : b ≤ c) :
+    terminalsBetween toks a c = terminalsBetween toks a b ++ terminalsBetween toks b c := by
+  unfold terminalsBetween
+  rw [← List.map_append]
+  congr 1
+  have e : c - a = (b - a) + (c - b) := by omega
+  rw [e, List.take_add, List.drop_drop]
+  congr 3
+  omega
+
+theorem terminalsBetween_self (toks : Array PTok) (a : Nat) : terminalsBetween toks a a = [] := by
+  simp [terminalsBetween]
+
+theorem terminalsBetween_one {toks : Array PTok} {a : Nat} {k : PKind} (h : KAt toks a k) :
+    terminalsBetween toks a (a + 1) = [terminalOf k] := by
+  obtain ⟨hlt, hk⟩ := h
+  unfold terminalsBetween
+  have e : a + 1 - a = 1 := by omega
+  have hl : a < toks.toList.length := by simpa using hlt
+  rw [e, List.drop_eq_getElem_cons hl]
+  simp [hk]
+
+theorem terminalsBetween_all (toks : Array PTok) :
+    terminalsBetween toks 0 toks.size = toks.toList.map (fun t => terminalOf t.kind) := by
+  unfold terminalsBetween
+  rw [List.drop_zero, Nat.sub_zero, List.take_of_length_le (by simp)]
+
+theorem terminalOf_mem (k : PKind) : terminalOf k ∈ Generated.grammarTerminals := by
+  cases k <;> simp [terminalOf, Generated.grammarTerminals]
+
+/-- a token, then the rest of the right-hand side -/
+theorem DerivesSeq.tokAt {G : List (String × List String)} {toks : Array PTok} {a c : Nat} {k : PKind}
+    {rest : List String} (hk : KAt toks a k) (hac : a + 1 ≤ c)
+    (h : DerivesSeq G rest (terminalsBetween toks (a + 1) c)) :
+    DerivesSeq G (terminalOf k :: rest) (terminalsBetween toks a c) := by
+  rw [terminalsBetween_append toks (Nat.le_succ a) hac, terminalsBetween_one hk]
+  exact DerivesSeq.term (terminalOf_mem k) h
+
+/-- a nonterminal, then the rest of the right-hand side -/
+theorem DerivesSeq.ntAt {G : List (String × List String)} {toks : Array PTok} {a b c : Nat} {A : String}
+    {rest : List String} (hab : a ≤ b) (hbc : b ≤ c) (h1 : Derives G A (terminalsBetween toks a b))
+    (h2 : DerivesSeq G rest (terminalsBetween toks b c)) :
+    DerivesSeq G (A :: rest) (terminalsBetween toks a c) := by
+  rw [terminalsBetween_append toks hab hbc]
+  exact DerivesSeq.nonterm h1 h2
+
+theorem DerivesSeq.nilAt {G : List (String × List String)} {toks : Array PTok} {a : Nat} :
+    DerivesSeq G [] (terminalsBetween toks a a) := by
+  rw [terminalsBetween_self]; exact DerivesSeq.nil
+
+theorem unitProds_mem : ∀ p ∈ unitProds,
+    (nonterminalOf p.1, [nonterminalOf p.2]) ∈ Generated.grammarProductions := by
+  decide
+
+theorem leafProds_mem : ∀ p ∈ leafProds,
+    (nonterminalOf p.1, [terminalOf p.2]) ∈ Generated.grammarProductions := by
+  decide
+
+theorem binProds_mem : ∀ p ∈ binProds,
+    (nonterminalOf p.1, [nonterminalOf p.2.1, terminalOf p.2.2.1, nonterminalOf p.2.2.2])
+      ∈ Generated.grammarProductions := by
+  decide
+
+theorem binderProds_mem : ∀ p ∈ binderProds, ∀ x : Name,
+    (nonterminalOf p.1, [terminalOf p.2.1, terminalOf (.identifier x), terminalOf .colon,
+      nonterminalOf .jumboTerm, terminalOf p.2.2.1, terminalOf p.2.2.2, nonterminalOf .term])
+      ∈ Generated.grammarProductions := by
+  intro p hp x
+  revert p
+  dsimp only [terminalOf]
+  decide
+
+/-- **Every parse-shaped derivation is a derivation of `grammar.y`.** -/
+theorem PModel.Seg.derives {toks : Array PTok} {nt : NT} {a b : Nat} (h : Seg toks nt a b) :
+    a ≤ b ∧ Derives Generated.grammarProductions (nonterminalOf nt) (terminalsBetween toks a b) := by
+  induction h with
+  | unit hm _ ih =>
+    exact ⟨ih.1, Derives.prod (unitProds_mem _ hm) (.ntAt ih.1 (Nat.le_refl _) ih.2 .nilAt)⟩
+  | leaf hm hk =>
+    exact ⟨Nat.le_succ _, Derives.prod (leafProds_mem _ hm) (.tokAt hk (Nat.le_refl _) .nilAt)⟩
+  | @var x a hk =>
+    have hm : (nonterminalOf .variable, [terminalOf (.identifier x)]) ∈ Generated.grammarProductions := by
+      dsimp only [terminalOf]; decide
+    exact ⟨Nat.le_succ _, Derives.prod hm (.tokAt hk (Nat.le_refl _) .nilAt)⟩
+  | @lit n a hk =>
+    have hm : (nonterminalOf .integerLiteral, [terminalOf (.integerLiteral n)])
+        ∈ Generated.grammarProductions := by dsimp only [terminalOf]; decide
+    exact ⟨Nat.le_succ _, Derives.prod hm (.tokAt hk (Nat.le_refl _) .nilAt)⟩
+  | @lambda x a b h1 h2 _ ih =>
+    have hm : (nonterminalOf .lambda, [terminalOf (.identifier x), terminalOf .thickArrow,
+        nonterminalOf .term]) ∈ Generated.grammarProductions := by dsimp only [terminalOf]; decide
+    have := ih.1
+    exact ⟨by omega, Derives.prod hm (.tokAt h1 (by omega) (.tokAt h2 (by omega)
+      (.ntAt ih.1 (Nat.le_refl _) ih.2 .nilAt)))⟩
+  | @lambdaImplicit x a b h1 h2 h3 h4 _ ih =>
+    have hm : (nonterminalOf .lambdaImplicit, [terminalOf .leftCurly, terminalOf (.identifier x),
+        terminalOf .rightCurly, terminalOf .thickArrow, nonterminalOf .term])
+        ∈ Generated.grammarProductions := by dsimp only [terminalOf]; decide
+    have := ih.1
+    exact ⟨by omega, Derives.prod hm (.tokAt h1 (by omega) (.tokAt h2 (by omega) (.tokAt h3 (by omega)
+      (.tokAt h4 (by omega) (.ntAt ih.1 (Nat.le_refl _) ih.2 .nilAt)))))⟩
+  | @binder A o c ar x a b d hm h1 h2 h3 _ h4 h5 _ ih1 ih2 =>
+    have := ih1.1
+    have := ih2.1
+    exact ⟨by omega, Derives.prod (binderProds_mem _ hm x) (.tokAt h1 (by omega) (.tokAt h2 (by omega)
+      (.tokAt h3 (by omega) (.ntAt ih1.1 (by omega) ih1.2 (.tokAt h4 (by omega) (.tokAt h5 (by omega)
+      (.ntAt ih2.1 (Nat.le_refl _) ih2.2 .nilAt)))))))⟩
+  | nonDependentPi _ h1 _ ih1 ih2 =>
+    have hm : (nonterminalOf .nonDependentPi, [nonterminalOf .smallTerm, terminalOf .thinArrow,
+        nonterminalOf .term]) ∈ Generated.grammarProductions := by dsimp only [terminalOf]; decide
+    have := ih1.1
+    have := ih2.1
+    exact ⟨by omega, Derives.prod hm (.ntAt ih1.1 (by omega) ih1.2 (.tokAt h1 (by omega)
+      (.ntAt ih2.1 (Nat.le_refl _) ih2.2 .nilAt)))⟩
+  | application _ _ ih1 ih2 =>
+    have hm : (nonterminalOf .application, [nonterminalOf .atom, nonterminalOf .smallTerm])
+        ∈ Generated.grammarProductions := by decide
+    have := ih1.1
+    have := ih2.1
+    exact ⟨by omega, Derives.prod hm (.ntAt ih1.1 ih2.1 ih1.2
+      (.ntAt ih2.1 (Nat.le_refl _) ih2.2 .nilAt))⟩
+  | @letPlain x t a b c h1 h2 _ h3 _ ih1 ih2 =>
+    have hm : (nonterminalOf .let_, [terminalOf (.identifier x), "let_annotation", terminalOf .equals,
+        nonterminalOf .term, terminalOf (.terminator t), nonterminalOf .term])
+        ∈ Generated.grammarProductions := by dsimp only [terminalOf]; decide
+    have hann : Derives Generated.grammarProductions "let_annotation"
+        (terminalsBetween toks (a + 1) (a + 1)) :=
+      Derives.prod (rhs := []) (by decide) .nilAt
+    have := ih1.1
+    have := ih2.1
+    exact ⟨by omega, Derives.prod hm (.tokAt h1 (by omega) (.ntAt (Nat.le_refl _) (by omega) hann
+      (.tokAt h2 (by omega) (.ntAt ih1.1 (by omega) ih1.2 (.tokAt h3 (by omega)
+      (.ntAt ih2.1 (Nat.le_refl _) ih2.2 .nilAt))))))⟩
+  | @letAnn x t a b c d h1 h2 _ h3 _ h4 _ ih1 ih2 ih3 =>
+    have hm : (nonterminalOf .let_, [terminalOf (.identifier x), "let_annotation", terminalOf .equals,
+        nonterminalOf .term, terminalOf (.terminator t), nonterminalOf .term])
+        ∈ Generated.grammarProductions := by dsimp only [terminalOf]; decide
+    have := ih1.1
+    have := ih2.1
+    have := ih3.1
+    have hann : Derives Generated.grammarProductions "let_annotation"
+        (terminalsBetween toks (a + 1) b) :=
+      Derives.prod (rhs := [terminalOf .colon, nonterminalOf .smallTerm]) (by decide)
+        (.tokAt h2 (by omega) (.ntAt ih1.1 (Nat.le_refl _) ih1.2 .nilAt))
+    exact ⟨by omega, Derives.prod hm (.tokAt h1 (by omega) (.ntAt (by omega) (by omega) hann
+      (.tokAt h3 (by omega) (.ntAt ih2.1 (by omega) ih2.2 (.tokAt h4 (by omega)
+      (.ntAt ih3.1 (Nat.le_refl _) ih3.2 .nilAt))))))⟩
+  | negation h1 _ ih =>
+    have hm : (nonterminalOf .negation, [terminalOf .minus, nonterminalOf .largeTerm])
+        ∈ Generated.grammarProductions := by dsimp only [terminalOf]; decide
+    have := ih.1
+    exact ⟨by omega, Derives.prod hm (.tokAt h1 (by omega) (.ntAt ih.1 (Nat.le_refl _) ih.2 .nilAt))⟩
+  | bin hm _ h1 _ ih1 ih2 =>
+    have := ih1.1
+    have := ih2.1
+    exact ⟨by omega, Derives.prod (binProds_mem _ hm) (.ntAt ih1.1 (by omega) ih1.2
+      (.tokAt h1 (by omega) (.ntAt ih2.1 (Nat.le_refl _) ih2.2 .nilAt)))⟩
+  | ite h1 _ h2 _ h3 _ ih1 ih2 ih3 =>
+    have hm : (nonterminalOf .if_, [terminalOf .if_, nonterminalOf .term, terminalOf .then_,
+        nonterminalOf .term, terminalOf .else_, nonterminalOf .term])
+        ∈ Generated.grammarProductions := by dsimp only [terminalOf]; decide
+    have := ih1.1
+    have := ih2.1
+    have := ih3.1
+    exact ⟨by omega, Derives.prod hm (.tokAt h1 (by omega) (.ntAt ih1.1 (by omega) ih1.2
+      (.tokAt h2 (by omega) (.ntAt ih2.1 (by omega) ih2.2 (.tokAt h3 (by omega)
+      (.ntAt ih3.1 (Nat.le_refl _) ih3.2 .nilAt))))))⟩
+  | group h1 _ h2 ih =>
+    have hm : (nonterminalOf .group, [terminalOf .leftParen, nonterminalOf .term,
+        terminalOf .rightParen]) ∈ Generated.grammarProductions := by dsimp only [terminalOf]; decide
+    have := ih.1
+    exact ⟨by omega, Derives.prod hm (.tokAt h1 (by omega) (.ntAt ih.1 (by omega) ih.2
+      (.tokAt h2 (Nat.le_refl _) .nilAt)))⟩
+
+/-- **Soundness of the parser w.r.t. `grammar.y`**: whenever a packrat function returns a tree
+without any recorded error, the tokens it consumed are a sentence of its nonterminal in the
+published grammar. -/
+def C07_parse_sound_stmt : Prop :=
+  ∀ (toks : Array PTok) (nt : NT) (r : PResult) (st : PState),
+    parseNT toks (parseFuel toks) nt 0 PState.init = some (r, st) →
+    collectErrors r.term = [] →
+    Derives Generated.grammarProductions (nonterminalOf nt) (terminalsBetween toks 0 r.next)
+theorem C07_parse_sound : C07_parse_sound_stmt := by
+  intro toks nt r st h hce
+  exact ((parseNT_sound h).2 hce).derives.2
+
+/-- **Accepted ⇒ sentence**: every token sequence the parser accepts is a sentence of `grammar.y`. -/
+def C07_accepted_is_sentence_stmt : Prop :=
+  ∀ (toks : Array PTok) (ctx : List Name) (t : RTm), parseModel toks ctx = .ok t →
+    Derives Generated.grammarProductions "term" (toks.toList.map (fun t => terminalOf t.kind))
+theorem C07_accepted_is_sentence : C07_accepted_is_sentence_stmt := by
+  intro toks ctx t h
+  obtain ⟨r, st, hr, hn, hce⟩ := C07_all_consumed toks ctx t h
+  have hd := ((parseNT_sound (show parseNT toks (parseFuel toks) .term 0 PState.init = some (r, st)
+    from hr)).2 hce).derives.2
+  rw [hn, terminalsBetween_all] at hd
+  exact hd
